@@ -184,6 +184,20 @@ func runC20(e *emitter, tier string, seed uint64) {
 		body, _ := io.ReadAll(resp.Body)
 		resp.Body.Close()
 		dec, decOK := decodeAs(resp.Header.Get("Content-Encoding"), body)
+		if len(c.decoded) > 1<<20 {
+			// multi-megabyte documents: the comparisons are made here (the line protocol would carry tens of megabytes per
+			// case); the driver gets their outcomes and the ends of the documents
+			ins, ok := insertOracle(c.decoded)
+			tail := func(x string) string {
+				if len(x) > 300 {
+					return x[len(x)-300:]
+				}
+				return x
+			}
+			e.emit(key, "big", hx(c.enc), fmt.Sprint(len(c.decoded)), strconv.Itoa(resp.StatusCode), b01(resp.Header.Get("Content-Encoding") == c.enc),
+				b01(resp.Header.Get("Content-Length") == strconv.Itoa(len(body))), b01(decOK), b01(ok && dec == ins), hx(tail(dec)), hx(tail(ins)))
+			return
+		}
 		decField := hx(dec)
 		if !decOK {
 			decField = "UNDECODABLE"
@@ -229,7 +243,7 @@ func runC20(e *emitter, tier string, seed uint64) {
 	csps := []string{
 		"", "default-src 'self'", "script-src 'nonce-abc123'", "default-src 'self'; script-src 'self' 'nonce-r4nd0m' https://cdn; style-src 'nonce-zz'",
 		"script-src 'nonce-a' 'nonce-b'", "script-src 'self'; script-src 'nonce-late'", "script-src nonce-noquotes", "script-src\t'nonce-tab'", "script-src 'nonce-a\"b<c&d'",
-		"Script-Src 'nonce-upper'", "script-src-elem 'nonce-elem'", "script-src", "script-src ;", ";;script-src  'nonce-x'  ;", "script-src 'nonce-'", "script-src ''nonce-q''", "script-src 'nonce-é'",
+		"Script-Src 'nonce-upper'", "ſcript-ſrc 'nonce-longs'", "SCRIPT-SRC 'nonce-allupper'", "script-src-elem 'nonce-elem'", "script-src", "script-src ;", ";;script-src  'nonce-x'  ;", "script-src 'nonce-'", "script-src ''nonce-q''", "script-src 'nonce-é'",
 		"script-src 'nonce-nbsp'", "style-src 'nonce-s'; script-src 'nonce-t'",
 	}
 	skips := []string{"", "true", "false", "TRUE", "1"}
@@ -264,6 +278,11 @@ func runC20(e *emitter, tier string, seed uint64) {
 		for _, en := range encs {
 			run(mk("", "text/html", en, "", false, d, false))
 		}
+	}
+	// multi-megabyte documents (the quantifier says "sizes from empty to multi-megabyte"), in the three encodings
+	big := "<html><head><title>big</title></head><body>" + strings.Repeat("<p>paragraph é 日本</p>\n", 260000) + "</body></html>" // about 6.5 MB
+	for _, en := range []string{"", "gzip", "br"} {
+		run(mk("", "text/html; charset=utf-8", en, "", false, big, false))
 	}
 	base := docs[1]
 	for _, ct := range cts {
